@@ -97,6 +97,35 @@ def scenario(tier):
     return fn
 
 
+# zones whose rules changed: (zone database name, offset by today's rules, an instant in the past, the offset in force then)
+ZONE_HISTORY = [("Europe/Moscow", 10800, 1342353600, 14400),        # 2012-07-15: permanent "summer time" UTC+4, since 2014 UTC+3
+                ("America/Sao_Paulo", -10800, 1544875200, -7200),   # 2018-12-15: daylight saving, abolished in 2019
+                ("Europe/Istanbul", 10800, 1421323200, 7200)]       # 2015-01-15: winter time UTC+2, since 2016 permanently UTC+3
+
+
+def zone_history(b, sym):
+    """a file whose modification time lies in a period in which the zone had other rules than today (material from the archive)"""
+    name, std_now, t_file, off_then = sym.choose("zone", ZONE_HISTORY)
+    b.set_zone_history(name, std_now, t_file, off_then)
+    b.mkfile("R/clip.mov", 5, size=4, mtime=t_file)
+    r = b.run("create", root="R", h=["md5"])
+    b.require(r.exit == 0 and r.exc is None, "create-exit-0", str(r))
+    win = b.now_window()
+    m = b.manifests("R")[0]
+    rec = m.record("clip.mov")
+    b.require(rec is not None and rec.lastmod is not None, "file-recorded", "")
+    d = b.date_attr(rec.lastmod)
+    b.require(d is not None and d[2] is not None, "date-has-offset", "lastmodificationdate")
+    b.require(truth(d[0] == t_file), "date-denotes-instant", "lastmodificationdate in %s: written value is not the file's modification instant%s"
+              % (name, "" if not b.real else " (%r, expected epoch %d)" % (rec.lastmod, t_file)))
+    b.require(truth(d[2] == off_then), "date-offset-in-force", "lastmodificationdate in %s: offset differs from the one in force at that instant%s"
+              % (name, "" if not b.real else " (%r, expected %d s)" % (rec.lastmod, off_then)))
+    for what, raw in [("creationdate", m.creator.get("creationdate"))] + [("hashdate " + e.fmt, e.hashdate) for e in rec.entries]:
+        dd = b.date_attr(raw)
+        b.require(dd is not None and truth(in_window(dd[0], win)), "date-denotes-instant", "%s in %s is not the time of the run" % (what, name))
+        b.require(truth(dd[2] == std_now), "date-offset-in-force", "%s in %s: offset differs from today's" % (what, name))
+
+
 def flatten_dates(b, sym):
     """create under one fixed-offset zone, flatten under another: the dates in the packing list denote the same instants"""
     z1 = 60 * sym.choose("create_zone_minutes", [0, -480, 330])
@@ -135,12 +164,18 @@ def harnesses(tier):
     return [Harness("c16-flatten", flatten_dates, frontier=3, budget_s=600,
                     what="create under a fixed-offset zone (UTC, -8 h, +5:30), flatten under another (+1 h, -8 h, -2:30): sizes and dates of the packing list",
                     bounds={"zones": "3 x 3 fixed offsets"}, outside=["DST zones for flatten (covered for create by c16-dates)"]),
+            Harness("c16-zone-history", zone_history, frontier=3, budget_s=600, real_opts={"clock": "real"},
+                    what="a file whose modification time lies in a period in which the zone had other rules than today (Europe/Moscow 2012, "
+                         "America/Sao_Paulo 2018, Europe/Istanbul 2015): lastmodificationdate carries the offset that was in force then, the "
+                         "run's own dates today's offset",
+                    bounds={"zones": [z[0] for z in ZONE_HISTORY]}, outside=["other zones of the database"],
+                    stubs=["Zone.past: instant -> offset; time.timezone/altzone/tm_isdst follow today's rules, tm_gmtoff / astimezone() the database"]),
             Harness("c16-dates", scenario(tier), frontier=4, budget_s=900, real_opts={"clock": "real"},
                     what="create on one file: size 0..3 symbolic; zone = symbolic standard offset (whole minutes, +-14 h) with or without a +1 h "
                          "daylight offset; DST flag of 'now' and of the file's modification instant symbolic and independent; file age symbolic "
                          "up to 300 days: size / lastmodificationdate / hashdate / creationdate / manifest name checked against instants and offsets",
                     bounds={"std offset": "-840..840 minutes", "dst": "std or std+1h", "file age": "0..300 days",
                             "assumption": "instants whose DST flags differ are >= 10 days apart", "repeated hour": "file instant optionally in the second occurrence of the hour repeated at DST end"},
-                    outside=["zones with sub-minute offsets", "historical zone rule changes (std offset itself changing)", "mtimes with sub-second parts",
+                    outside=["zones with sub-minute offsets", "historical zone rule changes other than the three of c16-zone-history", "mtimes with sub-second parts",
                              "dates before 1970"],
                     stubs=["time.timezone/altzone/localtime, datetime.now/fromtimestamp/replace/astimezone/isoformat/strftime: clock+zone model"])]
